@@ -32,6 +32,10 @@ FIELDS = [
     "{a}", "{a!r}", "{a!x}", "{a!rr}", "{a=}", "{a = }", "{a:>3}", "{a:{w}}", "{a:{w}.{p}}", "{a!r:^{w}}", "{f'{b}'}", "{a\n}", "{(lambda: 1)()}",
     "{ {'k': 1}['k'] }", "{a:}", "{a!s:x}", "{a,}", "{*a,}", "{a if b else c}", "{a:{{}}}", "{a:=3}", "{(a:=3)}", "{a!r=}", "{a=!r}", "{a=:>3}", "{a.b[0]()}",
     "{a:%Y-%m}", "{'q'}", "{a:{w}{p}}", "{}", "{a:{w!r}}", "{ a }", "{a#}", "{yield}", "{a:\n}",
+    # a line end inside a format spec: part of the spec in a triple-quoted f-string, its end in a single-quoted one
+    "{a:>\n3}", "{a:x\ny}", "{a:{w}\n}", "{a:\n{w}}", "{a:>\\\n3}", "{a!r:>\n}",
+    # a debug field that goes on over the end of the line
+    "{a=\n}", "{a = \n!r}", "{a=\n:>3}", "{a\n=}", "{a=!r\n}",
 ]
 ADJ = ["'s' {F}", "{F} 's'", "{F} {F}", "{F} {G}", "f({F}, {{}})", "x = {F}; y = {{1: 2}}", "{F} if a else {{}}", "b'x' {F}", "{F}\n{G}\n", "({F}\n 's'\n 't')",
        "print({F}, {G}, sep='{{')", "[{F} for a in {{1}}]", "p{F}", "{F}.format(1)", "u's' {F}", "r's' {F}"]
@@ -75,6 +79,16 @@ def _nest(outer: int, depth: int) -> Iterator[str]:
                             yield f"f{q}{_lit(l1, q)}{{{inner}{spec}}}{l2}{q}"
     for s in level(depth, outer):
         yield s + "\n"
+
+
+def light_cases() -> Iterator[str]:
+    """Every field form x 4 quote styles x {f, rf} x 4 x 4 literal parts: the f-string family other checks borrow."""
+    for f0 in FIELDS:
+        for pre in ("f", "rf"):
+            for q in QUOTES:
+                for l1 in LITERALS[:4]:
+                    for l2 in LITERALS[:4]:
+                        yield f"{pre}{q}{_lit(l1, q)}{f0}{_lit(l2, q)}{q}\n"
 
 
 def _lit(l: str, quote: str) -> str:
